@@ -1,6 +1,6 @@
 """C02 - expression tables equal the documented weighting of the reported read assignments."""
 import re
-from . import common, sweep
+from . import common, sweep, countermachine
 from .. import workload
 
 STRATS = ["unique_only", "with_ambiguous", "unique_splicing_consistent", "unique_inconsistent", "all"]
@@ -45,7 +45,12 @@ def attrs(probs, spec, opts, cell, res):
     return {"table": table, "kind": kind, "tq": opts.get("transcript_quant"), "gq": opts.get("gene_quant")}
 
 
+replay = countermachine.replay
+
+
 def run(chk, orch):
+    countermachine.run_machine(chk, orch, 50, "c02")
     sweep.run_sweep(chk, orch, "counts", make_wl, n_quick=20, n_round=40, attr_fn=attrs,
                     what="each table cell is 0 or the documented weighted sum of the reported assignments; per-read total <= 1; "
                          "__ambiguous/__no_feature/__not_aligned lines; TPM = rescaled counts")
+    chk.rule = countermachine.MACHINE_RULE + chk.rule
